@@ -414,21 +414,52 @@ pub fn batch_main(b: &BatchArgs) -> BatchOut {
     // 3. workers over contiguous index ranges (+ a determinism re-run of a sample, in a
     //    different process with a different range split)
     let trun = Instant::now();
-    let w = b.workers.max(1) as u64;
-    let per = (b.scenarios + w - 1) / w;
-    let mut children = Vec::new();
-    for k in 0..w {
-        let from = k * per;
-        let to = ((k + 1) * per).min(b.scenarios);
-        if from >= to {
-            break;
+    // Worker processes are recycled every CHUNK scenarios: a5 leaks each caller thread's
+    // projection object (~22 KB, by design) when the thread ends, and a simulator that starts a
+    // few threads per scenario would otherwise grow by gigabytes over a long batch.
+    const CHUNK: u64 = 4000;
+    let w = b.workers.max(1) as usize;
+    let mut chunks: Vec<(u64, u64)> = Vec::new();
+    {
+        // at least one chunk per worker, at most CHUNK scenarios per chunk
+        let per = ((b.scenarios + w as u64 - 1) / w as u64).clamp(1, CHUNK);
+        let mut from = 0;
+        while from < b.scenarios {
+            let to = (from + per).min(b.scenarios);
+            chunks.push((from, to));
+            from = to;
         }
-        let tag = format!("{}-{}", b.tag, k);
-        children.push((tag.clone(), from, to, spawn_worker(b, &pool_path, &refs_path, from, to, &tag, b.no_yield)));
     }
     let mut worker_outs: Vec<WorkerOut> = Vec::new();
     let mut rerun: Vec<(u64, u64)> = Vec::new();
-    for (tag, from, to, mut ch) in children {
+    let mut running: Vec<(String, u64, u64, std::process::Child)> = Vec::new();
+    let mut next_chunk = 0usize;
+    loop {
+        while running.len() < w && next_chunk < chunks.len() {
+            let (from, to) = chunks[next_chunk];
+            let tag = format!("{}-{}", b.tag, next_chunk);
+            next_chunk += 1;
+            running.push((tag.clone(), from, to, spawn_worker(b, &pool_path, &refs_path, from, to, &tag, b.no_yield)));
+        }
+        if running.is_empty() {
+            break;
+        }
+        // reap whichever worker has finished
+        let mut done: Option<usize> = None;
+        for (i, r) in running.iter_mut().enumerate() {
+            if let Ok(Some(_)) = r.3.try_wait() {
+                done = Some(i);
+                break;
+            }
+        }
+        let i = match done {
+            Some(i) => i,
+            None => {
+                std::thread::sleep(std::time::Duration::from_millis(5));
+                continue;
+            }
+        };
+        let (tag, from, to, mut ch) = running.swap_remove(i);
         let st = ch.wait().expect("wait worker");
         let path = format!("{}/work-{}.json", b.work_dir, tag);
         match (st.code(), std::fs::read_to_string(&path)) {
@@ -442,6 +473,7 @@ pub fn batch_main(b: &BatchArgs) -> BatchOut {
             }
             (code, _) => out.harness_errors.push(format!("worker {} died (status {:?})", tag, code)),
         }
+        let _ = std::fs::remove_file(&path);
     }
     // stalled ranges are re-run once with yield sites off (a changed tree may hold a real lock
     // across a yield site; parking there starves the other simulated threads - that is the
@@ -811,7 +843,8 @@ pub fn worlds_main(b: &WorldArgs) -> WorldsOut {
                 let path = format!("{}/world-{}.json", b.work_dir, w);
                 save(&path, &f);
                 let r = exec_file_fresh(&path, "seeded");
-                let main_hash = f.scenarios.last().map(|s| s.hash64()).unwrap_or(0);
+                // worlds are comparable (same decisions expected) only if they also agree on the probe flag
+                let main_hash = f.scenarios.last().map(|s| s.hash64() ^ (s.probe as u64)).unwrap_or(0);
                 if !matches!(&r, Ok(o) if o.violation.is_some()) {
                     let _ = std::fs::remove_file(&path);
                 }
